@@ -422,6 +422,33 @@ CLAIMED = {
         'errors wins, FIND of the empty text just past the end, FLOOR(0,0)); '
         'Python\'s math module for irrational values.',
         'DESIGN.md 4/C12'),
+    'C11': (
+        'TLC model checking of Calls.tla (the function table with Excel\'s '
+        'argument counts and error-consumption modes; Total and ErrorKept '
+        'over every admitted answer of every call class) + replay of every '
+        '(function, argument tuple) on the real function table + TLC trace '
+        'validation (CallsTrace.tla) of the recorded answers',
+        'Calls.tla lists all 205 callable names of the table with their '
+        'admissible argument counts and which arguments are consumed (all / '
+        'listed positions for look-ups, IFS, SWITCH / the IF rule / none for '
+        'the error-handling and inspection functions). TLC enumerates per '
+        'signature class every tuple of up to three argument descriptors over '
+        '19 kinds (numbers, text, numeric text, empty text, logicals, blank '
+        'reference, #N/A, #DIV/0!, referenced row / column / row holding an '
+        'error / mixed row, array literals with and without an error) and all '
+        'pairs of positions for longer calls, and checks Total / ErrorKept on '
+        'every answer Allowed admits. Each call is made on the real table '
+        '(formula compiled by the real parser, ranges supplied; raw result so '
+        'arrays are seen whole; one call in four also through Cell and a '
+        'Dispatcher) and its answer class must be in Allowed; the recorded '
+        'calls are then validated by CallsTrace.tla, which looks the function '
+        'up in FnTable itself. The harness cross-checks the table against '
+        'get_functions(). Quick makes up to 400 calls per function (about '
+        '62 000), thorough all of the space (about 500 000).',
+        'Trusted: TLC; the arities and consumption modes written in '
+        'Calls.tla (Excel\'s documented signatures); the classification of '
+        'python results into answer classes (harness/values.py alpha).',
+        'DESIGN.md 4/C11'),
 }
 
 REASON_PENDING = 'check not built yet in this round (planned, see DESIGN.md section 8)'
